@@ -321,7 +321,8 @@ def gen_csv(rng):
     seen = set()
     while len(names) < ncols:
         base = rng.choice(['Channel 0', 'Channel 1', 'clk', 'data', 'bus', 'D 7', 'sig a', 'x', 'CS n', 'MOSI',
-                           'Timer', 'Time valid', 'time', 'Time', 'Time [ms]', 'TIME s'])      # only the exact text "Time [s]" is the time column
+                           'Timer', 'Time valid', 'time', 'Time', 'Time [ms]', 'TIME s',      # only the exact text "Time [s]" is the time column
+                           ' Chan 0', 'Chan  0', 'clk ', '  x', 'a   b', ' Time [s]', 'Time [s] '])   # every space becomes one underscore, also leading, trailing, repeated
         sfx = rng.choice(['', '', '', '[%d]' % rng.randrange(8), '(%d)' % rng.randrange(4), '[7:0]', ' [3:0]', '[2][3:0]'])
         nm = base + sfx
         nn = norm_name(nm.replace(' ', '_'))
